@@ -409,8 +409,8 @@ impl Property for C14 {
     }
     fn budget(&self, tier: Tier) -> (u32, usize) {
         match tier {
-            Tier::Quick => (1_500_000, 8),
-            Tier::Thorough => (20_000_000, 16),
+            Tier::Quick => (4_000_000, 8),
+            Tier::Thorough => (60_000_000, 16),
         }
     }
     fn run(&self, case: &BackoffCase) -> Report {
